@@ -91,6 +91,20 @@ def fam_recover(Tn):
     sent = [[heads[0], semi, heads[3], semi], [heads[3], heads[3], semi, heads[2], semi], [semi, semi], [1, 2, 3, semi, heads[1], semi], [heads[2]]]
     return Fam('recover%d' % Tn, 2, plain(Tn), rules, 40, 3 * (Tn + 2) + 40, sorted(set([0, 1, Tn - 2, semi])), 5, sent, parse_prop='C08', note='%d terminals, error rule' % Tn)
 
+def fam_states(bits, tail):
+    """many states: S -> c1..c_bits x^tail for every code c over {a, b}: 2^bits rules of bits+tail symbols; the automaton is a trie followed by
+    2^bits separate tails (state numbers beyond 2^12 / 2^13), conflict-free"""
+    n = 1 << bits
+    rules = []
+    for code in range(n):
+        rules.append((0, [T((code >> (bits - 1 - i)) & 1) for i in range(bits)] + [T(2)] * tail, None))
+    nstates = (n - 1) * 2 + 1 + n * tail + 4
+    sent = []
+    for code in (0, 1, n // 2, n - 2, n - 1, 5 % n, 42 % n):
+        w = [(code >> (bits - 1 - i)) & 1 for i in range(bits)] + [2] * tail
+        sent += [w, w[:-1], w + [2], w[:bits] + [0] + w[bits + 1:]]
+    return Fam('states%d' % (nstates - 4), 1, plain(3), rules, nstates + 40, n + 8, [0, 1, 2], 3, sent, note='%d rules of %d symbols, about %d states' % (n, bits + tail, nstates))
+
 def families(tier='quick'):
     F = [fam_terms(62), fam_terms(63), fam_terms(64), fam_terms(65), fam_terms(130), fam_terms(70, True),
          fam_rules(256), fam_rules(257),
@@ -99,10 +113,10 @@ def families(tier='quick'):
          fam_prec([1, 2, 3, 4, 5, 6, 7, 8, 9], 'prec9levels'),
          fam_prec([INT_MIN, -70000, -32769, -1, 32767, 32768, 65536, 70000, INT_MAX], 'precwide'),
          fam_prec([-32768, 32768, 65535, 65537, 131072], 'prec16bit'),
-         fam_recover(63), fam_recover(129)]
+         fam_recover(63), fam_recover(129), fam_states(6, 64)]
     if tier != 'quick':
         F += [fam_terms(61), fam_terms(126), fam_terms(127), fam_terms(128), fam_terms(129), fam_terms(200), fam_terms(140, True), fam_terms(200, True),
-              fam_rules(254), fam_rules(255), fam_rules(258), fam_rules(300), fam_nterms(130), fam_long(65), fam_recover(65), fam_recover(200)]
+              fam_rules(254), fam_rules(255), fam_rules(258), fam_rules(300), fam_nterms(130), fam_long(65), fam_recover(65), fam_recover(200), fam_states(7, 64)]
     return F
 
 def sym_cpp(s):
